@@ -16,6 +16,9 @@ TValidate ==
     /\ l <= Len(TraceLog) /\ Line.ev = "validate"
     /\ LET t == Line IN
        /\ ObsAccept(t) => Valid(t.chain, t.anchors)
+       \* the TLS 1.3 layer and the certificate callback go by the per-certificate status alone (the return code is
+       \* consumed by TLS <= 1.2 only): a chain marked PASS throughout must be valid whatever the call returned
+       /\ (t.prc = 0 /\ Len(t.st) > 0 /\ \A j \in 1..Len(t.st) : t.st[j] = 1) => Valid(t.chain, t.anchors)
        /\ (Valid(t.chain, t.anchors) /\ Supported(t.chain, t.anchors)) => ObsAccept(t)
        /\ IF ObsAccept(t) # Walk(t.chain, t.anchors).accept THEN PrintT(<<"TRANSCRIPTION_DRIFT_LINE", l>>) ELSE TRUE
     /\ l' = l + 1
